@@ -159,7 +159,8 @@ class Gen:
         if r < 0.74 and allow.get("timer1", True):
             i = self.nid()
             self.tscripts[i] = gen_tscript(rng, in_start=rng.random() < 0.5)
-            return self.add(dict(name=self.name(), kind="timer1", args=self.pick(1), id=i))
+            # (a quarter of them read their only input passively: no active input at all, driven by their own schedule alone)
+            return self.add(dict(name=self.name(), kind="timer1p" if allow.get("timer1p") and rng.random() < 0.3 else "timer1", args=[a.lstrip("~") for a in self.pick(1)], id=i))
         if r < 0.80 and allow.get("struct", True):
             if rng.random() < 0.5:
                 ar = rng.choice((2, 3))
